@@ -602,6 +602,9 @@ class PoolTheory(Theory):
             v, c = pos_d
             if isinstance(v, RefV) and isinstance(c, ClassV) and c.name == "Exception":
                 return [(st, BoolV(z3.And(v.t != NONE, z3.Select(z3.Const("is_exception_object", A_RB), v.t))))]
+            if isinstance(v, RefV) and isinstance(c, ClassV) and c.name == "BaseException":
+                # an Exception instance, or the CancelledError a cancelled child left as its result
+                return [(st, BoolV(z3.And(v.t != NONE, z3.Or(z3.Select(z3.Const("is_exception_object", A_RB), v.t), z3.Select(z3.Const("is_cancellation_object", A_RB), v.t)))))]
             raise Unsupported("isinstance form")
         if name == "create_task":
             coro = kws.get("coro", pos[0] if pos else None)
@@ -1007,11 +1010,15 @@ class PoolTheory(Theory):
         p = PView(st)
         self.set_ghost(st, "creq", st.me, p.is_spawner(st.me))
 
-    def raise_opaque(self, st, fr, v: RefV) -> ExcV:
-        """`raise <object>`: only exception objects produced by user code reach such a statement (gather results)"""
+    def raise_opaque(self, st, fr, v: RefV):
+        """`raise <object>` (an element of gather's results): an Exception a child raised (user origin), or - if it is not an
+        Exception instance - the CancelledError a cancelled child left behind"""
         e = ExcV("UserExc", [], ref=v.t)
         e.origin = "user"
-        return e
+        c = ExcV("CancelledError", [], ref=v.t)
+        c.origin = "child"
+        is_exc = z3.Select(z3.Const("is_exception_object", A_RB), v.t)
+        return [(is_exc, e), (z3.Not(is_exc), c)]
 
     def delivered_cancel(self) -> ExcV:
         e = ExcV("CancelledError", [])
